@@ -224,7 +224,7 @@ def run(ctx):
     r1 = merge(ctx.map(run_part1, [c + (seed,) for c in part1_cases(ctx.tier)], chunksize=4))
     items = []
     plan = [(2, ts) for ts in range(len(TYPESETS) if ctx.tier == 'thorough' else 2)]
-    plan += [(3, ts) for ts in range(len(TYPESETS) if ctx.tier == 'thorough' else 1)]
+    plan += [(3, ts) for ts in range(2 if ctx.tier == 'thorough' else 1)]
     for depth, ts in plan:
         for first in range(len(_labs2(ctx.tier, depth))):
             items.append((first, depth, ts, ctx.tier, seed))
